@@ -60,8 +60,8 @@ def selftest(ctx):
     ctx.build_harness()
     base = ctx.scratch + "/self.ndjson"
     ctx.harness(["filter", "gen", base], env={"VERIF_SHARDS": "64"})
-    lines = open(base + ".0").read().splitlines()[:300]
-    rl = open(base + ".replay.0").read().splitlines()[:300]
+    lines = open(base + ".0").read().split("\n")[:300]
+    rl = open(base + ".replay.0").read().split("\n")[:300]
     bad = 0
     out = []
     for i, ln in enumerate(lines):
